@@ -235,6 +235,12 @@ func (x *Exec) atReturn(fr *Frame, c *Contract, entry, st *State, params, result
 			o.Clause = cl
 			o.Outputs = outs
 			o.Detail = fmt.Sprintf("return#%d", x.returns)
+			// later clauses may use earlier ones (each is proved separately, so the conjunction holds):
+			// assume this clause in hypothesis form for the clauses that follow
+			if !hasOpenFinding(x.findings, x.prop, o.Name) {
+				eca := x.evalCtxFor(c, st, entry, nil, params, sig, results, false)
+				st.Assume(eca.Bool(cl.Expr))
+			}
 			for _, f := range x.findings {
 				if f.Status != "open" || f.Property != x.prop || f.Observed == "" {
 					continue
@@ -366,4 +372,18 @@ func (x *Exec) atReturn(fr *Frame, c *Contract, entry, st *State, params, result
 			return
 		}
 	}
+}
+
+func hasOpenFinding(fs []*Finding, prop, name string) bool {
+	for _, f := range fs {
+		if f.Status != "open" {
+			continue
+		}
+		for _, pat := range f.Obligations {
+			if matchObl(pat, name) {
+				return true
+			}
+		}
+	}
+	return false
 }
